@@ -1,18 +1,74 @@
+// Command verif is the orchestrator of the deterministic-simulation checks.
+//
+//	verif check <property> [--tier quick|thorough]
+//	verif replay <file>
+//	verif instrument <outdir>
+//
+// Exit 0: property held on everything explored (known findings are printed as
+// KNOWN-FINDING lines). Exit 1: at least one `VIOLATION property=<id>
+// replay=<path>` line. Exit 2: infrastructure trouble (build failure,
+// watchdog, failure that does not replay, nondeterminism, schema) -- never
+// dressed up as a violation and never as a pass.
 package main
 
 import (
+	"bufio"
+	"bytes"
 	"encoding/json"
 	"fmt"
 	"os"
+	"os/exec"
+	"path/filepath"
+	"regexp"
+	"sort"
+	"strconv"
+	"strings"
+	"sync"
+	"time"
 
 	"verif/instrument"
 )
 
+const (
+	verifDir = "/verif"
+	repoDir  = "/repo"
+)
+
+type checkSpec struct {
+	Prop     string
+	Engine   string
+	Pkg      string // package whose test binary hosts the engine
+	Race     bool
+	Level    string
+	QuickS   int // wall-clock budget of the run phase, seconds
+	ThorS    int
+	Rule     string
+	Assume   []string
+	Real     []string
+	Stub     []string
+	StateDef string
+}
+
+var realCommon = []string{"all of google/pprof's packages profile and internal/{driver,report,graph,binutils,symbolizer,symbolz,transport,measurement,elfexec} (instrumented copies of the current working tree)", "html/template, encoding/json, regexp, compress/gzip, net/http client front half and httptest recorder"}
+var stubCommon = []string{"kernel filesystem (simos in-memory disk with fault and crash model)", "goroutine scheduler (simrt baton scheduler driven by the choice tape)", "sync primitives' blocking behaviour (simsync model + real primitive)", "clock (simtime)", "external programs dot/addr2line/nm/objdump/browsers (simexec scripts)", "terminal, flags, output writer (plug-in seams)", "HTTP listener (handlers called directly through the HTTPServer seam)", "remote servers (http.RoundTripper seam)"}
+
+var specs = map[string]*checkSpec{
+	"C19": {Prop: "C19", Engine: "c19", Pkg: "internal/driver", Level: "fault_enumeration", QuickS: 50, ThorS: 1200,
+		Rule:     "cases are seeded histories of save/delete/render/clone requests against the real web handlers in three modes: sequential histories checked step by step against an independent model of settings.json; one operation after a seeded prefix re-executed once per crash point (before/after every simulated system call and after every byte of every write) and per I/O error (ENOSPC/EIO/EACCES, short writes at every byte), each followed by restart and a liveness probe; 2-3 concurrent clients under the seeded scheduler checked by exact linearizability search. A case is distinct by (mode, initial state, operations, context-switch signature) and non-trivial if at least one saved configuration existed or was created and, for the fault mode, at least one fault fired, for the concurrent mode, at least two requests overlapped",
+		StateDef: "distinct settings.json states (decoded by the engine's own reader) observed after an operation, fault or crash",
+		Assume:   []string{"kill model: completed system calls survive, the interrupted write keeps its first k bytes; power loss (un-fsynced data vanishing) is not modelled because C19 speaks of pprof being killed and of failing writes", "URL round trip is checked with the process configuration at its defaults (makeURL elides defaults relative to the current configuration by design)", "os.Rename is atomic (POSIX)"}},
+}
+
 func main() {
-	if len(os.Args) > 1 && os.Args[1] == "instrument" {
-		st, err := instrument.Run(instrument.Options{Repo: "/repo", SimDir: "/verif/sim", OutDir: os.Args[2],
-			HideTest: []string{"internal/driver"},
-			Inject: map[string]string{"internal/driver/verif_smoke_test.go": "/verif/engines/driver/smoke_test.go"}})
+	if len(os.Args) < 2 {
+		usage()
+	}
+	switch os.Args[1] {
+	case "instrument":
+		if len(os.Args) < 3 {
+			usage()
+		}
+		st, err := runInstrument(os.Args[2])
 		if err != nil {
 			fmt.Fprintln(os.Stderr, err)
 			os.Exit(2)
@@ -20,5 +76,618 @@ func main() {
 		st.Sites = nil
 		b, _ := json.MarshalIndent(st, "", " ")
 		fmt.Println(string(b))
+	case "check":
+		if len(os.Args) < 3 {
+			usage()
+		}
+		tier := os.Getenv("VERIF_TIER")
+		for i := 3; i < len(os.Args); i++ {
+			if os.Args[i] == "--tier" && i+1 < len(os.Args) {
+				tier = os.Args[i+1]
+			}
+		}
+		if tier == "" {
+			tier = "quick"
+		}
+		os.Exit(check(os.Args[2], tier))
+	case "replay":
+		if len(os.Args) < 3 {
+			usage()
+		}
+		os.Exit(replayCmd(os.Args[2]))
+	default:
+		usage()
 	}
+}
+
+func usage() {
+	fmt.Fprintln(os.Stderr, "usage: verif check <property> [--tier quick|thorough] | verif replay <file> | verif instrument <dir>")
+	os.Exit(2)
+}
+
+func goEnv() []string {
+	env := os.Environ()
+	env = append(env, "GOFLAGS=-mod=mod", "GOPROXY=off", "GOSUMDB=off", "GOTOOLCHAIN=local")
+	return env
+}
+
+func enginePkgs() map[string]string {
+	// engines/<dir> -> repo package dir
+	return map[string]string{"driver": "internal/driver", "binutils": "internal/binutils"}
+}
+
+func runInstrument(out string) (*instrument.Stats, error) {
+	inject := map[string]string{}
+	var hide []string
+	for dir, pkg := range enginePkgs() {
+		files, _ := filepath.Glob(filepath.Join(verifDir, "engines", dir, "*_test.go"))
+		if len(files) == 0 {
+			continue
+		}
+		hide = append(hide, pkg)
+		for _, f := range files {
+			inject[filepath.Join(pkg, "verif_"+filepath.Base(f))] = f
+		}
+	}
+	return instrument.Run(instrument.Options{Repo: repoDir, SimDir: filepath.Join(verifDir, "sim"), OutDir: out, HideTest: hide, Inject: inject})
+}
+
+// build instruments the current tree and builds the test binary for pkg.
+func build(work, pkg string, race bool) (string, *instrument.Stats, error) {
+	st, err := runInstrument(work)
+	if err != nil {
+		return "", nil, fmt.Errorf("instrument: %v", err)
+	}
+	bin := filepath.Join(work, strings.ReplaceAll(pkg, "/", "_")+".test")
+	args := []string{"test", "-c", "-tags", "verif", "-vet=off", "-overlay=" + st.Overlay, "-o", bin}
+	if race {
+		args = append(args, "-race")
+	}
+	args = append(args, "./"+pkg)
+	cmd := exec.Command("go", args...)
+	cmd.Dir = repoDir
+	cmd.Env = goEnv()
+	out, err := cmd.CombinedOutput()
+	if err != nil {
+		return "", st, fmt.Errorf("go %s: %v\n%s", strings.Join(args, " "), err, out)
+	}
+	return bin, st, nil
+}
+
+type violation struct {
+	Class  string `json:"class"`
+	Detail string `json:"detail"`
+}
+
+type record struct {
+	Engine  string           `json:"engine"`
+	Seed    uint64           `json:"seed"`
+	OK      bool             `json:"ok"`
+	Viol    *violation       `json:"violation,omitempty"`
+	Tape    []uint32         `json:"tape,omitempty"`
+	MinTape []uint32         `json:"min_tape,omitempty"`
+	Trace   []string         `json:"trace,omitempty"`
+	Shrunk  int              `json:"shrink_execs,omitempty"`
+	TapeLen int              `json:"tape_len"`
+	EvHash  string           `json:"ev_hash"`
+	Digest  string           `json:"digest"`
+	Execs   int64            `json:"execs"`
+	Steps   int64            `json:"steps"`
+	SimNs   int64            `json:"sim_ns"`
+	Probes  map[string]int64 `json:"probes,omitempty"`
+	Faults  map[string]int64 `json:"faults,omitempty"`
+	Stats   map[string]int64 `json:"stats,omitempty"`
+	NonTriv []string         `json:"nontrivial,omitempty"`
+	States  []string         `json:"states,omitempty"`
+	SwSigs  int              `json:"switch_sigs"`
+	Sample  interface{}      `json:"sample,omitempty"`
+	WallMs  float64          `json:"wall_ms"`
+	Drawn   map[string]int64 `json:"drawn,omitempty"`
+}
+
+type replayFile struct {
+	Property string     `json:"property"`
+	Engine   string     `json:"engine"`
+	Seed     uint64     `json:"seed"`
+	Tier     string     `json:"tier"`
+	Tape     []uint32   `json:"tape"`
+	Viol     *violation `json:"violation"`
+	Digest   string     `json:"digest"`
+	Trace    []string   `json:"trace"`
+	Race     bool       `json:"race,omitempty"`
+	Pkg      string     `json:"pkg"`
+}
+
+type knownFinding struct {
+	Property string `json:"property"`
+	Class    string `json:"class"`
+	Match    string `json:"match"` // regexp on the violation detail
+	What     string `json:"what"`
+}
+
+type knownFile struct {
+	Known []knownFinding `json:"known"`
+	Fixed []string       `json:"fixed"`
+}
+
+func loadKnown() knownFile {
+	var kf knownFile
+	data, err := os.ReadFile(filepath.Join(verifDir, "known_findings.json"))
+	if err == nil {
+		if err := json.Unmarshal(data, &kf); err != nil {
+			fmt.Fprintln(os.Stderr, "known_findings.json:", err)
+			os.Exit(2)
+		}
+	}
+	return kf
+}
+
+func runWorker(bin string, env []string, timeout time.Duration) ([]byte, []byte, error) {
+	cmd := exec.Command(bin, "-test.run", "^TestVerifWorker$", "-test.timeout", "0")
+	cmd.Env = append(os.Environ(), env...)
+	var out, errb bytes.Buffer
+	cmd.Stdout, cmd.Stderr = &out, &errb
+	if err := cmd.Start(); err != nil {
+		return nil, nil, err
+	}
+	done := make(chan error, 1)
+	go func() { done <- cmd.Wait() }()
+	select {
+	case err := <-done:
+		return out.Bytes(), errb.Bytes(), err
+	case <-time.After(timeout):
+		cmd.Process.Kill()
+		<-done
+		return out.Bytes(), errb.Bytes(), fmt.Errorf("worker watchdog: no exit after %v", timeout)
+	}
+}
+
+func readRecords(path string) ([]record, error) {
+	f, err := os.Open(path)
+	if err != nil {
+		return nil, err
+	}
+	defer f.Close()
+	var out []record
+	sc := bufio.NewScanner(f)
+	sc.Buffer(make([]byte, 1<<20), 1<<28)
+	for sc.Scan() {
+		line := sc.Bytes()
+		if len(line) == 0 || line[0] != '{' {
+			continue
+		}
+		var r record
+		if err := json.Unmarshal(line, &r); err != nil {
+			return out, fmt.Errorf("%s: %v", path, err)
+		}
+		out = append(out, r)
+	}
+	return out, sc.Err()
+}
+
+// replayOnce runs a replay file in a fresh process and returns the record.
+func replayOnce(bin, file string, gomaxprocs int) (*record, error) {
+	outp := file + fmt.Sprintf(".out.%d.%d", os.Getpid(), time.Now().UnixNano())
+	defer os.Remove(outp)
+	env := []string{"VERIF_ENGINE=" + engineOfReplay(file), "VERIF_REPLAY=" + file, "VERIF_OUT=" + outp}
+	if gomaxprocs > 0 {
+		env = append(env, "GOMAXPROCS="+strconv.Itoa(gomaxprocs))
+	}
+	_, errb, err := runWorker(bin, env, 10*time.Minute)
+	recs, rerr := readRecords(outp)
+	if rerr != nil || len(recs) != 1 {
+		return nil, fmt.Errorf("replay of %s produced no record (%v, %v): %s", file, err, rerr, tail(errb, 2000))
+	}
+	return &recs[0], nil
+}
+
+func engineOfReplay(file string) string {
+	data, _ := os.ReadFile(file)
+	var rf replayFile
+	json.Unmarshal(data, &rf)
+	return rf.Engine
+}
+
+func tail(b []byte, n int) string {
+	if len(b) > n {
+		b = b[len(b)-n:]
+	}
+	return string(b)
+}
+
+func check(prop, tier string) int {
+	spec := specs[prop]
+	if spec == nil {
+		fmt.Fprintf(os.Stderr, "no check for property %s\n", prop)
+		return 2
+	}
+	start := time.Now()
+	seed := uint64(1)
+	if s := os.Getenv("VERIF_SEED"); s != "" {
+		if v, err := strconv.ParseUint(s, 10, 64); err == nil {
+			seed = v
+		} else if v, err := strconv.ParseInt(s, 10, 64); err == nil {
+			seed = uint64(v)
+		}
+	}
+	fmt.Printf("VERIF_SEED=%d property=%s tier=%s\n", seed, prop, tier)
+	work := filepath.Join(verifDir, ".work", fmt.Sprintf("%s-%d", prop, os.Getpid()))
+	os.MkdirAll(work, 0755)
+	defer os.RemoveAll(work)
+	os.MkdirAll(filepath.Join(verifDir, "evidence"), 0755)
+	os.MkdirAll(filepath.Join(verifDir, "replays"), 0755)
+
+	bin, ist, err := build(work, spec.Pkg, spec.Race)
+	if err != nil {
+		fmt.Fprintln(os.Stderr, "BUILD FAILED (infrastructure, not a verdict):", err)
+		return 2
+	}
+	buildS := time.Since(start).Seconds()
+
+	budget := spec.QuickS
+	if tier == "thorough" {
+		budget = spec.ThorS
+	}
+	if s := os.Getenv("VERIF_BUDGET_S"); s != "" {
+		if v, err := strconv.Atoi(s); err == nil {
+			budget = v
+		}
+	}
+	workers := 16
+	if s := os.Getenv("VERIF_WORKERS"); s != "" {
+		if v, err := strconv.Atoi(s); err == nil && v > 0 {
+			workers = v
+		}
+	}
+	deadline := time.Now().Add(time.Duration(budget) * time.Second)
+	runStart := time.Now()
+	var wg sync.WaitGroup
+	type wres struct {
+		recs   []record
+		stderr []byte
+		err    error
+		first  uint64
+	}
+	results := make([]wres, workers)
+	const chunk = 10_000_000
+	for w := 0; w < workers; w++ {
+		wg.Add(1)
+		go func(w int) {
+			defer wg.Done()
+			first := seed*1_000_000_000 + uint64(w)*chunk
+			outp := filepath.Join(work, fmt.Sprintf("w%d.jsonl", w))
+			env := []string{"VERIF_ENGINE=" + spec.Engine, fmt.Sprintf("VERIF_SEEDS=%d:%d", first, chunk), "VERIF_OUT=" + outp,
+				"VERIF_TIER=" + tier, fmt.Sprintf("VERIF_DEADLINE=%d", deadline.Unix()), "GOMAXPROCS=2"}
+			if spec.Race {
+				env = append(env, "GORACE=halt_on_error=0 log_path="+filepath.Join(work, fmt.Sprintf("race.w%d", w)))
+			}
+			_, errb, err := runWorker(bin, env, time.Duration(budget)*time.Second+15*time.Minute)
+			recs, rerr := readRecords(outp)
+			if err == nil {
+				err = rerr
+			}
+			results[w] = wres{recs, errb, err, first}
+		}(w)
+	}
+	wg.Wait()
+	runS := time.Since(runStart).Seconds()
+
+	var all []record
+	infra := false
+	for w, r := range results {
+		all = append(all, r.recs...)
+		if r.err != nil {
+			next := r.first + uint64(len(r.recs))
+			fmt.Fprintf(os.Stderr, "worker %d died (%v) while running seed %d:\n%s\n", w, r.err, next, tail(r.stderr, 3000))
+			infra = true
+		}
+	}
+	if len(all) == 0 {
+		fmt.Fprintln(os.Stderr, "no runs completed")
+		return 2
+	}
+
+	// ---- violations: replay files, confirmation, known findings ----
+	known := loadKnown()
+	exit := 0
+	violCount := 0
+	knownCount := 0
+	seenClass := map[string]int{}
+	var violSamples []interface{}
+	for i := range all {
+		r := &all[i]
+		if r.OK {
+			continue
+		}
+		violCount++
+		seenClass[r.Viol.Class]++
+		if seenClass[r.Viol.Class] > 2 {
+			continue // enough replay files for this class
+		}
+		tape := r.MinTape
+		if tape == nil {
+			tape = r.Tape
+		}
+		rf := replayFile{Property: prop, Engine: spec.Engine, Seed: r.Seed, Tier: tier, Tape: tape, Viol: r.Viol, Digest: r.Digest, Trace: r.Trace, Race: spec.Race, Pkg: spec.Pkg}
+		path := filepath.Join(verifDir, "replays", fmt.Sprintf("%s-%d.json", prop, r.Seed))
+		data, _ := json.MarshalIndent(rf, "", " ")
+		if err := os.WriteFile(path, data, 0644); err != nil {
+			fmt.Fprintln(os.Stderr, err)
+			return 2
+		}
+		// Must reproduce exactly, twice, in fresh processes.
+		okReplay := true
+		for k := 0; k < 2; k++ {
+			rr, err := replayOnce(bin, path, []int{1, 8}[k])
+			if err != nil {
+				fmt.Fprintln(os.Stderr, err)
+				okReplay = false
+				break
+			}
+			if rr.OK || rr.Viol.Class != r.Viol.Class || rr.Digest != r.Digest {
+				fmt.Fprintf(os.Stderr, "replay %d of %s diverged: ok=%v class=%v digest=%s want class=%s digest=%s\n", k, path, rr.OK, rr.Viol, rr.Digest, r.Viol.Class, r.Digest)
+				okReplay = false
+				break
+			}
+		}
+		if !okReplay {
+			fmt.Fprintf(os.Stderr, "seed %d: failure does not replay exactly: uncontrolled nondeterminism in the machinery, not reported as a violation\n", r.Seed)
+			infra = true
+			continue
+		}
+		if kf := matchKnown(known, prop, r.Viol); kf != nil {
+			knownCount++
+			fmt.Printf("KNOWN-FINDING: property=%s %s (class %s, seed %d, replay=%s)\n", prop, kf.What, r.Viol.Class, r.Seed, path)
+			continue
+		}
+		fmt.Printf("VIOLATION property=%s replay=%s\n", prop, path)
+		fmt.Printf("  class: %s\n  %s\n", r.Viol.Class, strings.ReplaceAll(short(r.Viol.Detail, 1500), "\n", "\n  "))
+		for _, t := range r.Trace {
+			fmt.Printf("  | %s\n", short(t, 300))
+		}
+		violSamples = append(violSamples, map[string]interface{}{"seed": r.Seed, "class": r.Viol.Class, "detail": short(r.Viol.Detail, 600), "trace": r.Trace, "replay": path})
+		exit = 1
+	}
+	// classes beyond the first two per class still count
+	for i := range all {
+		r := &all[i]
+		if !r.OK && seenClass[r.Viol.Class] > 2 && matchKnown(known, prop, r.Viol) == nil {
+			exit = 1
+		}
+	}
+
+	// ---- determinism self-check on a sample of seeds ----
+	nDet := 24
+	if tier == "thorough" {
+		nDet = 200
+	}
+	detChecked, detBad := 0, 0
+	{
+		// Spread the sample over workers.
+		var sample []record
+		per := nDet/workers + 1
+		for _, r := range results {
+			n := 0
+			for _, rec := range r.recs {
+				if rec.OK && rec.WallMs < 3000 && n < per {
+					sample = append(sample, rec)
+					n++
+				}
+			}
+		}
+		if len(sample) > nDet {
+			sample = sample[:nDet]
+		}
+		var mu sync.Mutex
+		var dwg sync.WaitGroup
+		sem := make(chan struct{}, 16)
+		for i, rec := range sample {
+			dwg.Add(1)
+			go func(i int, rec record) {
+				defer dwg.Done()
+				sem <- struct{}{}
+				defer func() { <-sem }()
+				outp := filepath.Join(work, fmt.Sprintf("det%d.jsonl", i))
+				env := []string{"VERIF_ENGINE=" + spec.Engine, fmt.Sprintf("VERIF_SEEDS=%d:1", rec.Seed), "VERIF_OUT=" + outp, "VERIF_TIER=" + tier,
+					fmt.Sprintf("GOMAXPROCS=%d", []int{1, 4, 16}[i%3])}
+				_, errb, err := runWorker(bin, env, 10*time.Minute)
+				recs, _ := readRecords(outp)
+				mu.Lock()
+				defer mu.Unlock()
+				detChecked++
+				if err != nil || len(recs) != 1 || recs[0].Digest != rec.Digest || recs[0].EvHash != rec.EvHash {
+					detBad++
+					got := "none"
+					if len(recs) == 1 {
+						got = recs[0].Digest + "/" + recs[0].EvHash
+					}
+					fmt.Fprintf(os.Stderr, "determinism self-check: seed %d gave %s, first run gave %s/%s (%v) %s\n", rec.Seed, got, rec.Digest, rec.EvHash, err, tail(errb, 500))
+				}
+			}(i, rec)
+		}
+		dwg.Wait()
+	}
+	if detBad > 0 {
+		infra = true
+	}
+
+	// ---- evidence ----
+	ev := aggregate(spec, prop, tier, seed, all, ist)
+	cov := ev["coverage"].(map[string]interface{})
+	cov["determinism_selfcheck"] = map[string]interface{}{"seeds_rerun_in_fresh_processes": detChecked, "gomaxprocs": []int{1, 4, 16}, "divergent": detBad}
+	cov["runs_per_hour"] = int64(float64(len(all)) / runS * 3600)
+	cov["run_phase_s"] = runS
+	cov["build_s"] = buildS
+	cov["workers"] = workers
+	if len(violSamples) > 0 {
+		cov["violation_samples"] = violSamples
+	}
+	cov["known_findings_matched"] = knownCount
+	ev["violations"] = violCount - knownCount
+	ev["wall_s"] = time.Since(start).Seconds()
+	data, _ := json.MarshalIndent(ev, "", " ")
+	evPath := filepath.Join(verifDir, "evidence", prop+".json")
+	if err := os.WriteFile(evPath, data, 0644); err != nil {
+		fmt.Fprintln(os.Stderr, err)
+		return 2
+	}
+	fmt.Printf("runs=%d executions=%d violations=%d known=%d distinct_nontrivial=%v determinism=%d/%d wall=%.1fs evidence=%s\n",
+		len(all), cov["executions"], violCount, knownCount, cov["distinct_nontrivial"], detChecked-detBad, detChecked, time.Since(start).Seconds(), evPath)
+	if exit == 1 {
+		return 1
+	}
+	if infra {
+		fmt.Fprintln(os.Stderr, "INFRASTRUCTURE PROBLEM (see above): result is not a verdict")
+		return 2
+	}
+	return 0
+}
+
+func matchKnown(k knownFile, prop string, v *violation) *knownFinding {
+	for i := range k.Known {
+		kf := &k.Known[i]
+		if kf.Property != prop || kf.Class != v.Class {
+			continue
+		}
+		if kf.Match == "" {
+			return kf
+		}
+		if re, err := regexp.Compile(kf.Match); err == nil && re.MatchString(v.Detail) {
+			return kf
+		}
+	}
+	return nil
+}
+
+func short(s string, n int) string {
+	if len(s) <= n {
+		return s
+	}
+	return s[:n] + fmt.Sprintf("...(+%d bytes)", len(s)-n)
+}
+
+func aggregate(spec *checkSpec, prop, tier string, seed uint64, all []record, ist *instrument.Stats) map[string]interface{} {
+	probes := map[string]int64{}
+	faults := map[string]int64{}
+	stats := map[string]int64{}
+	drawn := map[string]int64{}
+	nontriv := map[string]bool{}
+	states := map[string]bool{}
+	var execs, steps, simNs int64
+	swsigs := 0
+	var samples []interface{}
+	sampleModes := map[string]int{}
+	for _, r := range all {
+		execs += r.Execs
+		steps += r.Steps
+		simNs += r.SimNs
+		swsigs += r.SwSigs
+		for k, v := range r.Probes {
+			probes[k] += v
+		}
+		for k, v := range r.Faults {
+			faults[k] += v
+		}
+		for k, v := range r.Stats {
+			stats[k] += v
+		}
+		for k, v := range r.Drawn {
+			drawn[k] += v
+		}
+		for _, k := range r.NonTriv {
+			nontriv[k] = true
+		}
+		for _, k := range r.States {
+			states[k] = true
+		}
+		if r.Sample != nil && len(samples) < 12 {
+			mode := ""
+			if m, ok := r.Sample.(map[string]interface{}); ok {
+				mode, _ = m["mode"].(string)
+			}
+			if sampleModes[mode] < 3 {
+				sampleModes[mode]++
+				samples = append(samples, map[string]interface{}{"seed": r.Seed, "case": r.Sample})
+			}
+		}
+	}
+	zeroProbes := []string{}
+	for k, v := range probes {
+		if v == 0 {
+			zeroProbes = append(zeroProbes, k)
+		}
+	}
+	sort.Strings(zeroProbes)
+	cov := map[string]interface{}{
+		"evaluations":                    len(all),
+		"executions":                     execs,
+		"distinct_nontrivial":            len(nontriv),
+		"rule":                           spec.Rule,
+		"samples":                        samples,
+		"scheduling_points":              steps,
+		"simulated_time_s":               float64(simNs) / 1e9,
+		"simulated_time_note":            "pprof hardly uses time; simulated time is reported for completeness and is not a meaningful coverage measure for this code",
+		"faults_fired":                   faults,
+		"probes":                         probes,
+		"stats":                          stats,
+		"tape_choices_by_kind":           drawn,
+		"distinct_interleavings":         swsigs,
+		"distinct_interleavings_measure": "distinct hashes of the sequence of (step, task) context switches at sync/I-O/preemption points, counted per run and summed",
+		"distinct_states":                len(states),
+		"distinct_states_measure":        spec.StateDef,
+		"real_components":                realCommon,
+		"stub_components":                stubCommon,
+		"instrumentation": map[string]interface{}{"files": ist.Files, "import_swaps": ist.ImportSwaps, "go_statements": ist.GoStmts, "map_ranges": ist.MapRanges,
+			"map_range_key_types": ist.MapRangeKeys, "pointer_key_stamps": ist.Stamps, "function_entry_yields": ist.Yields, "reinit_vars": ist.ReinitVars},
+		"exhaustive": false,
+	}
+	return map[string]interface{}{
+		"property_id": prop,
+		"tier":        tier,
+		"seed":        int64(seed),
+		"level":       spec.Level,
+		"coverage":    cov,
+		"assumptions": append([]string{"a clean batch is evidence, not proof: schedules, fault plans and histories are sampled (single-fault sub-spaces named in the rule are enumerated per explored operation)", "context switches happen at sync operations, I/O calls and function entries, not between arbitrary instructions"}, spec.Assume...),
+	}
+}
+
+func replayCmd(file string) int {
+	data, err := os.ReadFile(file)
+	if err != nil {
+		fmt.Fprintln(os.Stderr, err)
+		return 2
+	}
+	var rf replayFile
+	if err := json.Unmarshal(data, &rf); err != nil {
+		fmt.Fprintln(os.Stderr, err)
+		return 2
+	}
+	work := filepath.Join(verifDir, ".work", fmt.Sprintf("replay-%d", os.Getpid()))
+	os.MkdirAll(work, 0755)
+	defer os.RemoveAll(work)
+	bin, _, err := build(work, rf.Pkg, rf.Race)
+	if err != nil {
+		fmt.Fprintln(os.Stderr, "BUILD FAILED:", err)
+		return 2
+	}
+	abs, _ := filepath.Abs(file)
+	rr, err := replayOnce(bin, abs, 0)
+	if err != nil {
+		fmt.Fprintln(os.Stderr, err)
+		return 2
+	}
+	if rr.OK {
+		fmt.Printf("replay of %s: no violation on the current tree (recorded: %s)\n", file, rf.Viol.Class)
+		return 0
+	}
+	fmt.Printf("VIOLATION property=%s replay=%s\n  class: %s\n  %s\n", rf.Property, file, rr.Viol.Class, strings.ReplaceAll(short(rr.Viol.Detail, 3000), "\n", "\n  "))
+	for _, t := range rr.Trace {
+		fmt.Printf("  | %s\n", short(t, 400))
+	}
+	if rr.Digest == rf.Digest {
+		fmt.Println("  digest matches the recorded failure exactly")
+	} else {
+		fmt.Printf("  digest %s differs from the recorded %s (the tree or the machinery changed since)\n", rr.Digest, rf.Digest)
+	}
+	return 1
 }
